@@ -205,8 +205,25 @@ def rule_codec_params(chk, prog):
         chk.analysed(f)
         obj = f.params[0]
 
-        def config_cond(cond):
+        def config_cond(cond, depth=0):
             """the condition looks at fields of the compressor object only"""
+            while cond.is_inst and cond.op in ("zext", "trunc") and cond.ops[0].is_inst:
+                cond = cond.ops[0]          # a bool local: i1 widened to i8 and narrowed again
+            if cond.is_inst and cond.op == "phi" and cond.ty == "i1" and depth < 3:
+                # a remembered `a && b` / `a || b`: every part, and every test that selects between the parts, is one
+                if not all(o.is_const or config_cond(o, depth + 1) for o in cond.ops):
+                    return False
+                d = f.idom.get(cond.bb)
+                if d is None:
+                    return False
+                region = [b for b in f.blocks if b is not cond.bb and f.dominates(d, b) and f.reaches(b, cond.bb)]
+                for b in region:
+                    t = b.term
+                    if t.op == "br" and len(t.x["succ"]) == 2 and not config_cond(t.ops[0], depth + 1):
+                        return False
+                    if any(i.op in ("call", "store") for i in b.insts if b is not d):
+                        return False
+                return True
             sl = [cond] + list(backward_slice(cond, phi_control=False, limit=60))
             insts = [x for x in sl if x.is_inst]
             if any(x.op in ("call", "phi") for x in insts):
